@@ -59,3 +59,36 @@ Proof.
   rewrite Z.land_ones by lia. apply Z.mod_pos_bound. apply Z.pow_pos_nonneg; lia.
 Qed.
 
+
+(* ---- byte buffers as write logs: the translated functions return the list of (index, byte) writes made
+   through a []byte parameter, in program order; apply_writes replays it on a buffer *)
+From Coq Require Import List.
+Import ListNotations.
+Fixpoint set_nth (l : list Z) (i : nat) (v : Z) : list Z :=
+  match l, i with
+  | [], _ => []
+  | _ :: t, O => v :: t
+  | h :: t, S i' => h :: set_nth t i' v
+  end.
+Definition apply_writes (ws : list (Z * Z)) (buf : list Z) : list Z :=
+  fold_left (fun b w => set_nth b (Z.to_nat (fst w)) (snd w)) ws buf.
+
+(* ---- moving Z bit operations on images of N back to N (one operand a literal) *)
+Lemma zn_land a b : Z.land (Z.of_N a) (Z.of_N b) = Z.of_N (N.land a b).
+Proof. destruct a, b; reflexivity. Qed.
+Lemma zn_lor a b : Z.lor (Z.of_N a) (Z.of_N b) = Z.of_N (N.lor a b).
+Proof. destruct a, b; reflexivity. Qed.
+Lemma zn_shiftl a n : Z.shiftl (Z.of_N a) (Z.of_N n) = Z.of_N (N.shiftl a n).
+Proof. rewrite N.shiftl_mul_pow2, Z.shiftl_mul_pow2 by lia. rewrite N2Z.inj_mul, N2Z.inj_pow. reflexivity. Qed.
+Lemma zn_shiftr a n : Z.shiftr (Z.of_N a) (Z.of_N n) = Z.of_N (N.shiftr a n).
+Proof.
+  rewrite N.shiftr_div_pow2, Z.shiftr_div_pow2 by lia. rewrite N2Z.inj_div, N2Z.inj_pow. reflexivity.
+Qed.
+Lemma zn_wrap_u w a : wrap_u (Z.of_N w) (Z.of_N a) = Z.of_N (a mod 2 ^ w).
+Proof. unfold wrap_u. rewrite N2Z.inj_mod, N2Z.inj_pow. reflexivity. Qed.
+Lemma zn_eqb a b : (Z.of_N a =? Z.of_N b) = (a =? b)%N.
+Proof. destruct (N.eqb_spec a b) as [->|H]; [apply Z.eqb_refl|]. apply Z.eqb_neq. lia. Qed.
+Lemma wrap_u_as_N w z : 0 <= w -> wrap_u w z = Z.of_N (Z.to_N (z mod 2 ^ w)).
+Proof.
+  intros Hw. unfold wrap_u. rewrite Z2N.id; [reflexivity|]. apply Z.mod_pos_bound. apply Z.pow_pos_nonneg; lia.
+Qed.
